@@ -205,6 +205,9 @@ def getitem_shape(E, s):
         else:
             E.true('is_tensor', E.tn.is_tensor(r))
             E.true('scalar_iff_all_int', all_int and r.dim() == 0)
+    elif s.get('too_few'):
+        # fewer indices than modes: the library documents an error; returning is only acceptable with the dense shape (checked above)
+        E.true('too_few_indices_error_class', exc in ('InvalidArguments', 'ShapeMismatch', 'NotImplementedError', 'IndexError', 'RankMismatch'))
     else:
         E.true('raises_only_for_invalid_index', valid == False if isinstance(valid, bool) else ~valid)
 
